@@ -56,6 +56,7 @@ type modTarget struct {
 	typ  types.Type // pointee / element type
 	sort string // heap key; "map:<type>" for maps
 	ref  *T
+	path []pathEl // non-empty: only this part of the object (an embedded struct reached through an interior pointer)
 }
 
 type frame struct {
@@ -573,10 +574,10 @@ func (x *executor) modTargetOf(ev *evaluator, e Expr) modTarget {
 		return modTarget{heap: false, typ: u.Elem(), sort: heapKey(u.Elem()), ref: c.slRef(v.t)}
 	case *types.Pointer:
 		p := c.ptrOf(v)
-		if p.kind != pkHeap || len(p.path) != 0 {
-			ev.fail("modifies target must be a whole object pointer")
+		if p.kind != pkHeap {
+			ev.fail("modifies target must point into the object heap")
 		}
-		return modTarget{heap: true, typ: u.Elem(), sort: heapKey(u.Elem()), ref: p.ref}
+		return modTarget{heap: true, typ: p.base, sort: heapKey(p.base), ref: p.ref, path: p.path}
 	case *types.Map:
 		return modTarget{heap: true, sort: "map:" + typeKey(v.typ), ref: v.t}
 	case *types.Interface:
@@ -839,6 +840,14 @@ func (x *executor) havocTarget(st *state, mt modTarget) {
 	}
 	if mt.heap {
 		h := c.heapOf(st, mt.typ)
+		if len(mt.path) > 0 {
+			pt := mt.path[len(mt.path)-1].typ
+			nv := c.d.fresh("hv_"+heapKey(pt), c.sortOf(pt))
+			st.assume(c.valueWF(nv, pt))
+			root := mkSelect(h, mt.ref)
+			c.setHeap(st, mt.typ, mkStore(h, mt.ref, c.updatePath(root, mt.typ, mt.path, nv)))
+			return
+		}
 		nv := c.d.fresh("hv_"+mt.sort, c.sortOf(mt.typ))
 		st.assume(c.valueWF(nv, mt.typ))
 		c.setHeap(st, mt.typ, mkStore(h, mt.ref, nv))
